@@ -220,6 +220,13 @@ pub fn run_stream(o: &Opts, which: &str) {
           out.count("gen:random");
           gen_project(&mut rng, &ing, if o.thorough { 4 } else { 3 }, shared, wc)
         };
+        // sibling links next to zero-width nodes: the parser library itself disagrees (ts_node_next_sibling skips a
+        // zero-width node that children() lists, e.g. Go's empty token at the end of source_file); C05 and C19
+        // exclude such trees for the sibling clauses, so a rule using them is not tied on such a tree (counted)
+        if zero_width && p.has(&|k| matches!(k, RKey::Precedes(_) | RKey::Follows(_))) {
+          out.count("tie:out-of-scope(sibling rule on a tree with zero-width nodes)");
+          continue;
+        }
         let core = match p.load(lang) {
           Ok(c) => c,
           Err(e) => {
